@@ -276,6 +276,7 @@ type lineParser struct {
 	i            int  // byte position within line
 	col          int  // 0-based column position within line
 	tabRemaining int8 // number of columns left within current tab character
+	tabPartial   bool // whether some columns of the current tab character have been consumed
 
 	state int8
 }
@@ -366,6 +367,7 @@ func (p *lineParser) updateTabRemaining() {
 	} else {
 		p.tabRemaining = 0
 	}
+	p.tabPartial = false
 }
 
 // ConsumeLine advances the cursor past the end of the line.
@@ -415,6 +417,7 @@ func (p *lineParser) ConsumeIndent(n int) {
 			if n < int(p.tabRemaining) {
 				p.col += n
 				p.tabRemaining -= int8(n)
+				p.tabPartial = true
 				return
 			}
 			p.col += int(p.tabRemaining)
